@@ -176,7 +176,7 @@ pub fn name_strategy() -> impl Strategy<Value = String> {
 /// markup-heavy payload strings
 pub fn payload_strategy() -> impl Strategy<Value = String> {
     let piece = prop_oneof![
-        6 => prop::sample::select(vec!["<", ">", "&", "'", "\"", "]]>", "]]", "]", "--", "-", "?>", "?", "=", "/", " ", "\t", "\n", "\r", "\r\n", "&amp;", "&lt;", "&#32;", "&#x41;", "&unknown;", "<!--", "-->", "<![CDATA[", "</a>", "<a>", "x", "y", "text", "\u{e9}", "\u{20ac}", "\u{1F600}", "\u{a0}", "\u{2028}", "\u{c}", "\u{b}", "\u{85}", "\u{3000}"]).prop_map(|s| s.to_string()),
+        6 => prop::sample::select(vec!["<", ">", "&", "'", "\"", "]]>", "]]", "]", "--", "-", "?>", "?", "=", "/", " ", "\t", "\n", "\r", "\r\n", "&amp;", "&lt;", "&#32;", "&#x41;", "&unknown;", "<!--", "-->", "<![CDATA[", "</a>", "<a>", "x", "y", "text", "\u{e9}", "\u{20ac}", "\u{1F600}", "\u{a0}", "\u{2028}", "\u{c}", "\u{b}", "\u{85}", "\u{3000}", "\u{feff}", "\u{feff}x"]).prop_map(|s| s.to_string()),
         1 => any::<char>().prop_filter("no U+FEFF (a leading one is a byte-order mark and is stripped by the reader)", |c| *c != '\u{feff}').prop_map(|c| c.to_string()),
         1 => "[a-z ]{0,8}",
     ];
